@@ -38,7 +38,7 @@ def run(chk: Check):
     import jax.numpy as jnp
     from jax import jvp, vjp
     from .c08 import design
-    from .c12 import converge_trial
+    from .c12 import make_converged_system
     chk.rule = ("design: Afqmc.tla SameEstimator (every AD entry point follows the canonical schedule of the plain sampler); "
                 "implementation: per (entry point, walker type, Hamiltonian, observable, block structure, seed) jvp and vjp are "
                 "taken of the sampler entry point with exactly driver.afqmc's conventions and the relations Primal (plain = "
@@ -70,8 +70,8 @@ def run(chk: Check):
                    ("uhf", dict(orbital_rotation=False, do_sr=False), (2, 2, 1)), ("rhf", dict(orbital_rotation=False, do_sr=True), (3, 1, 2))]
     for ci, (wt, o, blk) in enumerate(combos):
         nelec = (2, 1) if wt == "uhf" else (2, 2)
-        sysd = converge_trial(runlevel.make_system(np.random.default_rng(700 + ci + chk.seed), norb=4, nelec=nelec, nchol=2,
-                                                   trial_kind=wt, walker_type=wt, n_walkers=4, dt=0.02, vscale=0.3))
+        sysd = make_converged_system(700 + ci + chk.seed, norb=4, nelec=nelec, nchol=2, trial_kind=wt, walker_type=wt, n_walkers=4,
+                                     dt=0.02, vscale=0.3)
         pd0 = runlevel.init_prop_data(sysd, 60 + ci)
         pd0["weights"] = jnp.array([0.7, 1.3, 1.1, 0.9])
         # as in a driver run, the stored overlaps handed to an entry point are stale (QR + global reconfiguration
